@@ -342,9 +342,11 @@ class defaultdict2(defaultdict):
         return c
 
     def __missing__(self, key):
+        # Never store looked-up defaults: only explicitly set keys should
+        # be reported by membership tests or survive as state.
         try:
-            v = self.default_values[key]
-            self[key] = v
-            return v
+            return self.default_values[key]
         except KeyError:
-            return super(defaultdict2, self).__missing__(key)
+            if self.default_factory is None:
+                raise
+            return self.default_factory()
